@@ -10,6 +10,8 @@ use std::time::{Duration, Instant};
 struct Ctrl {
     log: HashSet<&'static str>,
     gate_armed: bool,
+    /// the hook point at which the armed gate parks the I/O thread (default: just before poll)
+    gate_at: &'static str,
     parked: bool,
     /// callers arriving at `recv_begin` (about to block for a reply) wait while this is set
     recv_gate: bool,
@@ -31,6 +33,7 @@ pub fn install(log: &[&'static str]) {
     with(|c| {
         c.log = log.iter().copied().collect();
         c.gate_armed = false;
+        c.gate_at = "poll_begin";
         c.parked = false;
         c.recv_gate = false;
         c.counts.clear();
@@ -68,7 +71,7 @@ fn on_event(name: &'static str, fields: &[(&'static str, i64)]) {
         }
         return;
     }
-    if name == "poll_begin" && c.gate_armed {
+    if c.gate_armed && name == (if c.gate_at.is_empty() { "poll_begin" } else { c.gate_at }) {
         c.parked = true;
         CV.notify_all();
         while g.as_ref().map(|c| c.gate_armed).unwrap_or(false) {
@@ -83,7 +86,18 @@ fn on_event(name: &'static str, fields: &[(&'static str, i64)]) {
 
 /// From now on the I/O thread stops at its next `poll_begin`.
 pub fn arm_gate() {
-    with(|c| c.gate_armed = true);
+    with(|c| {
+        c.gate_at = "poll_begin";
+        c.gate_armed = true;
+    });
+}
+
+/// From now on the I/O thread stops the next time it emits hook event `at`.
+pub fn arm_gate_at(at: &'static str) {
+    with(|c| {
+        c.gate_at = at;
+        c.gate_armed = true;
+    });
 }
 
 /// Waits until the I/O thread is parked at the gate.
